@@ -3,11 +3,12 @@
 
    Reading guide.  [trel dO dP t t'] (Proofs/TcbShift.v) says: t' is t with
    SND.UNA/NXT/ISS, the seq of every queued outgoing header and the ack of every
-   queued incoming segment moved by dO, RCV.IRS/NXT (once the state is not
-   SYN-SENT), the seq of every queued incoming segment and the flagged ack of
-   every outgoing header moved by dP, everything else equal - EXCEPT SND.WL1 and
-   SND.WL2, which are unconstrained (see C12_wl2_plain_shift_refuted for why
-   they have to be).  [srel dA dB s s'] lifts this to the two-endpoint system.
+   queued incoming segment moved by dO, RCV.IRS/NXT and SND.WL1 (once the state
+   is not SYN-SENT; before that they hold raw zeros), the seq of every queued
+   incoming segment and the flagged ack of every outgoing header moved by dP,
+   everything else equal - EXCEPT SND.WL2, which is unconstrained (see
+   C12_wl2_plain_shift_refuted for why it has to be).  [srel dA dB s s'] lifts
+   this to the two-endpoint system.
    [tinv]/[sinv] is a well-formedness invariant of the ORIGINAL run only (all
    sequence fields in u32 range; every SYN/ACK-bearing header advertises the
    constant window DEFAULT_WND); it is proved to hold from init_sys, so the
@@ -58,7 +59,7 @@ Theorem C12_tcb_stages_equivariant : forall dO dP,
 Proof. exact tcb_stages_equivariant. Qed.
 Print Assumptions C12_tcb_stages_equivariant.
 
-(* with valid SND.WL1/WL2 the window update is exactly equivariant, whatever
+(* with a valid SND.WL2 the window update is exactly equivariant, whatever
    windows the segments advertise (no appeal to the constant window) *)
 Theorem C12_ack_est_exact : forall dO dP g t h,
   wl_valid dO dP g t -> g_nxt g = wadd (rcv_nxt t) dP ->
